@@ -174,6 +174,7 @@ func leafMsgs() [][]tfield {
 		{vi(1, ^uint64(0)), str(2, "hi")}, // 10-byte varint; "hi" = 68 69 is itself a well-formed message (field 13)
 		{f32(3, 0xFFFFFFFE), f64(1, 1<<63|1), str(2, "")},
 		{str(2, "a\nb"), str(2, "zz")},                    // repeated path; a line break inside a string
+		{str(2, "50%_off %d%% %s"), vi(1, 7)},             // characters that mean something to a formatter
 		{vi(2, 300), str(2, "tag: 9, wire type: varint")}, // one number with two wire types; text imitating the output
 	}
 }
